@@ -8,6 +8,51 @@ HERE = os.path.dirname(os.path.dirname(os.path.abspath(__file__)))
 HOOK_COMMITS = ["7e56da8"]
 
 CLAIMED = {
+    "C01": dict(
+        engine="handlesim", category="exploration", design_ref="DESIGN.md section 4 (C01), 3.2",
+        technique="deterministic simulation of handle histories (single caller): seeded operation sequences on the real library under ASan next to an executable reference model, observed after every operation",
+        text=("Seeded histories of copy/assign/swap/free/scope-exit/dontUseRefs over device, memory, pool, kernel and stream handles (plus the "
+              "operations that create them) run on the real library (ASan build, guarded construction/destruction counters) and on a "
+              "reference model of which object each handle denotes and when objects die. After every operation every handle's "
+              "isInitialized(), the live backend-object counts, memoryAllocated() and the absence of ASan reports are compared; at the "
+              "end all handles are dropped and only deliberately detached objects may remain. Failures are minimised by delta debugging."),
+        note=("One caller thread: the simulator chooses only the operation sequence (no faults, no interleaving) - stated in the evidence. "
+              "Serial and OpenMP devices only. LSan is not an oracle."),
+    ),
+    "C02": dict(
+        engine="handlesim", category="exploration", design_ref="DESIGN.md section 4 (C02), 3.2",
+        technique="deterministic simulation of memory-operation histories against a byte-array reference model (aliasing views, host aliases), ASan build",
+        text=("Seeded histories of malloc/wrapMemory/slice/+/cast/clone/copyFrom/copyTo (host and device, all count/offset forms incl. "
+              "negative, out-of-range and uninitialized operands) against a byte-array model with aliasing views and host-aliased "
+              "buffers; every view and every aliased host array is read back after every operation; invalid requests must raise "
+              "occa::exception and change nothing; crashes and ASan reports are violations."),
+        note=("Validity rules are written from the statement and the public documentation. Recorded silent no-ops on uninitialized handles "
+              "are tolerated inside a run (and printed as KNOWN-FINDING); everything else stops and minimises the run."),
+    ),
+    "C03": dict(
+        engine="handlesim", category="exploration", design_ref="DESIGN.md section 4 (C03), 3.2",
+        technique="deterministic simulation of pool histories: reference model of reservation contents, placement invariants read from the implementation, ASan build",
+        text=("Seeded histories of reserve/release/slice/resize/shrinkToFit/setAlignment with unique patterns written into every "
+              "reservation; after every operation all live views must read back their model bytes, views that share no bytes must occupy "
+              "disjoint ranges inside the pool, views that share bytes must keep sharing exactly those bytes."),
+        note="Offsets and pool size are read through the internal header; zero-length slices of reservations are not generated.",
+    ),
+    "C04": dict(
+        engine="handlesim", category="exploration", design_ref="DESIGN.md section 4 (C04), 3.2",
+        technique="deterministic simulation of pool histories with an accounting oracle computed from the actual reservation layout",
+        text=("Same engine; after every operation reserved() must equal the measure of the union of the live reservation ranges rounded "
+              "out to the alignment (computed from the actual offsets), numReservations() the number of live views, size() >= "
+              "reserved(), resize below reserved() must raise and change nothing, alignment() must follow setAlignment()."),
+        note="The union is only evaluated when every live view of the pool is observable through a handle slot.",
+    ),
+    "C05": dict(
+        engine="handlesim", category="exploration", design_ref="DESIGN.md section 4 (C05), 3.2",
+        technique="deterministic simulation of allocation histories with a device-accounting oracle (exact for memoryAllocated, bounded-transient interval for maxMemoryAllocated)",
+        text=("Same engine; after every operation memoryAllocated() must equal live malloc/clone bytes (with or without use_host_pointer) "
+              "plus live pool backing sizes, wrapped memory counting nothing; maxMemoryAllocated() must lie between the largest value "
+              "observed and the largest transient the operations allow (exact for malloc/clone); zero once everything is released."),
+        note="own_host_pointer and detach() are not generated.",
+    ),
     "C06": dict(
         engine="procsim", category="exploration", design_ref="DESIGN.md section 4 (C06)",
         technique="deterministic simulation: seeded histories of builds in fresh simulated processes on one cache, differential oracle against an isolated empty-cache build",
